@@ -500,6 +500,8 @@ def jobs_for(prop, tier):
         j = j + longruns([("churn", 100, 250), ("churn", 20, 250), ("fill", 300, 250)])
     elif prop in ("C12", "C13"):
         j = j + longruns([("churn", 100, 250), ("churn", 20, 250)], lru=1)
+    if prop in ("C08", "C17", "C01"):
+        j = j + [{"id": "scalex-types1cpu", "argv": ["scalex", "types1cpu"]}]
     if prop in ("C01", "C03", "C16"):
         j = j + unit_space(tier, prop.lower())
     # key / value types other than the search engines' own, RandomState, build() (E1d)
